@@ -163,9 +163,25 @@ pub fn run(run: &mut Run) -> Finish {
             l.case(class != 0, class + 100);
         });
     }
+    // a third pool whose names extend one another (string prefixes that are not component prefixes)
+    const EXT: [&str; 3] = ["a", "ab", "abc"];
+    for (fi, &(abs, sb, st)) in forms.iter().enumerate() {
+        let name = format!("every ordered pair of {} paths with 1..={maxw} components over {{a, ab, abc}}, base separator {sb:?}, target separator {st:?}", if abs { "absolute" } else { "relative" });
+        run.par_slice(&name, fi as u64 + 21, nw * nw, |idx, l| {
+            let k = idx & ((1 << 40) - 1);
+            let ext = |p: Vec<&'static str>| -> Vec<&'static str> { p.iter().map(|c| EXT[NAMES.iter().position(|n| n == c).unwrap()]).collect() };
+            let b = ext(path_components(k / nw, maxw));
+            let t = ext(path_components(k % nw, maxw));
+            let (v, class) = check_pair(&render(&b, abs, sb), &render(&t, abs, st));
+            if let Some(v) = v {
+                l.violation(idx, v);
+            }
+            l.case(class != 0, class + 200);
+        });
+    }
     Finish {
         level: "exploration",
-        rule: "E1: every ordered pair of paths with 1..N components (N=6 quick, 8 thorough) over the name pool {a,b,c} (and with 1..4 components over {a, ü, プロ}), in six forms (absolute/relative x separator combinations); distinct by construction. Oracle: component-wise resolution of the result against dir(base) equals the target, and '.' iff target = dir(base). Non-trivial = needs at least one '..' or one descended component; outcome class = (ups, downs) capped at 3.".into(),
+        rule: "E1: every ordered pair of paths with 1..N components (N=6 quick, 8 thorough) over the name pool {a,b,c} (and with 1..4 components over {a, ü, プロ} and over {a, ab, abc}), in six forms (absolute/relative x separator combinations); distinct by construction. Oracle: component-wise resolution of the result against dir(base) equals the target, and '.' iff target = dir(base). Non-trivial = needs at least one '..' or one descended component; outcome class = (ups, downs) capped at 3.".into(),
         assumptions: vec!["paths made of ordinary components only (no '.', '..', empty components, drive letters) as the property states".into()],
         coverage_extra: json!({"max_components": maxc, "paths_per_form": n}),
     }
